@@ -88,26 +88,32 @@ def lineCommentText (tk : Token) : Str :=
   let isNl := fun (x : Byte) => x == 13 || x == 10
   ((c.dropWhile isNl).reverse.dropWhile isNl).reverse
 
-/-- parseCommentTag; `none` inside: not a tag. Declines when the value needs real unquoting. -/
-def parseCommentTag (s : Str) : P (Option Tag) :=
+/-- parseCommentTag as a pure function: `some none`: not a tag; `none`: outside the model (the value
+    would need real unquoting). -/
+def commentTag (s : Str) : Option (Option Tag) :=
   let pre := strOf "[tag("
   let suf := strOf ")]"
   if s.length < pre.length + suf.length || s.take pre.length != pre || s.drop (s.length - suf.length) != suf then
-    pure none
+    some none
   else
     let body := (s.drop pre.length).take (s.length - pre.length - suf.length)
     let key := body.takeWhile (· != 0x3a)
-    if key.length == body.length then pure (some { key := key, value := [], boolean := true })
+    if key.length == body.length then some (some { key := key, value := [], boolean := true })
     else
       let value := body.drop (key.length + 1)
       match plainQuoted value with
-      | some v => pure (some { key := key, value := v, boolean := false })
+      | some v => some (some { key := key, value := v, boolean := false })
       | none =>
         -- strconv.Unquote fails on anything that is not a quoted literal: not a tag. A quoted literal
         -- with escapes would need real unquoting: outside the model.
-        if value.head? == some 0x22 && value.getLast? == some 0x22 && value.length ≥ 2 then declined
-        else if value.head? == some 0x60 || value.head? == some 0x27 then declined
-        else pure none
+        if value.head? == some 0x22 && value.getLast? == some 0x22 && value.length ≥ 2 then none
+        else if value.head? == some 0x60 || value.head? == some 0x27 then none
+        else some none
+
+def parseCommentTag (s : Str) : P (Option Tag) :=
+  match commentTag s with
+  | some r => pure r
+  | none => declined
 
 /-- skipEndOfLineComments -/
 def skipEolComments : Nat → P Unit
@@ -124,11 +130,7 @@ def skipEolComments : Nat → P Unit
 /-- readDeprecated -/
 def readDeprecated : P Str := do
   let toks ← expectSeq [.kDeprecated, .openParen, .strLit, .closeParen, .closeSquare]
-  let msg ← match toks[2]? with
-    | some tk => (fun t => match plainQuoted tk.concrete with
-        | some s => PR.ok s t
-        | none => PR.decline t : P Str)
-    | none => pure []
+  let msg ← unquote (toks.getD 2 {})
   optNewline
   pure msg
 
